@@ -62,7 +62,11 @@ func vStubRqhSetUserAgentBytes(h *fasthttp.RequestHeader, v []byte) { vGhostOf(h
 //verif:replace (*github.com/valyala/fasthttp.RequestHeader).UserAgent
 func vStubRqhUserAgent(h *fasthttp.RequestHeader) []byte { return vGhostOf(h).ua }
 
-//verif:replace (*github.com/valyala/fasthttp.RequestHeader).SetContentTypeBytes
+// SetContentTypeBytes is a method of the unexported struct that RequestHeader
+// embeds; the executor passes that embedded struct's address, which is all
+// the model needs (a ghost record per object).
+//
+//verif:replace (*github.com/valyala/fasthttp.header).SetContentTypeBytes
 func vStubRqhSetContentTypeBytes(h *fasthttp.RequestHeader, v []byte) { vGhostOf(h).ct = vCopy(v) }
 
 //verif:replace (*github.com/valyala/fasthttp.RequestHeader).ContentType
